@@ -71,6 +71,16 @@ func c10Check(c *fw.Ctx, pts [3][2]float64, class string) {
 			copy(c10Bufs[2][:], p)
 			o, e, p = geom.Coord(c10Bufs[0][:2]), geom.Coord(c10Bufs[1][:2]), geom.Coord(c10Bufs[2][:2])
 		}
+		if pi%3 == 1 && c.R.Chance(1, 3) {
+			// another question about the same segment first: where the line through it
+			// meets a line through the query point
+			func() {
+				defer func() { _ = recover() }()
+				q := geom.Coord{p[0] + 1, p[1] - 3}
+				_ = bigxy.Intersection(o, e, p, q)
+			}()
+			c.Count("bigxy_intersection_on_the_same_segment_first")
+		}
 		var g1, g2 orientation.Type
 		if c.Guard("panic", func() {
 			g1 = bigxy.OrientationIndex(o, e, p)
@@ -230,6 +240,44 @@ func c10Near(c *fw.Ctx, idx int) {
 	}
 	if c.WantSample() {
 		c.Sample(map[string]any{"o": fw.Fs(o[:]), "e": fw.Fs(e[:]), "p_base": fw.Fs([]float64{px, py}), "neighbours": "x,y each moved by -3..3 ulps"})
+	}
+	// one query point within ulps of the centre of a box, asked against one
+	// diagonal of the box and right after it against the other one (and against
+	// the reversed diagonals): four segments with the same bounding box
+	{
+		x0, y0 := float64(r.Range(-1000, 1000)), float64(r.Range(-1000, 1000))
+		w, h := float64(2*r.Range(1, 500)), float64(2*r.Range(1, 500))
+		if r.Bool() {
+			sc := math.Ldexp(1, r.Range(-30, 30))
+			x0, y0, w, h = x0*sc, y0*sc, w*sc, h*sc
+		}
+		cx, cy := x0+w/2, y0+h/2
+		for k := r.Intn(4); k > 0; k-- {
+			cx = math.Nextafter(cx, math.Inf(1-2*r.Intn(2)))
+		}
+		for k := r.Intn(3); k > 0; k-- {
+			cy = math.Nextafter(cy, math.Inf(1-2*r.Intn(2)))
+		}
+		segs := [][2][2]float64{{{x0, y0}, {x0 + w, y0 + h}}, {{x0, y0 + h}, {x0 + w, y0}}, {{x0 + w, y0 + h}, {x0, y0}}, {{x0 + w, y0}, {x0, y0 + h}}}
+		pm := r.Perm(4)
+		pc := geom.Coord{cx, cy}
+		got := make([]orientation.Type, 4)
+		c.SetInput(map[string]any{"class": "diagonals of one box asked one after the other", "box": fw.Fs([]float64{x0, y0, x0 + w, y0 + h}), "p": fw.Fs(pc), "order": fmt.Sprint(pm)})
+		if c.Guard("panic", func() {
+			for i, k := range pm {
+				got[i] = bigxy.OrientationIndex(geom.Coord(segs[k][0][:]), geom.Coord(segs[k][1][:]), pc)
+			}
+		}) {
+			return
+		}
+		c.Eval(4)
+		c.Count("diagonals_of_one_box_asked_one_after_the_other")
+		for i, k := range pm {
+			if want := exact.OrientF(segs[k][0][0], segs[k][0][1], segs[k][1][0], segs[k][1][1], cx, cy); int(got[i]) != want {
+				c.Fail("wrong-sign", "bigxy.OrientationIndex(%s, %s, %s) = %d, exact sign %d (call %d of four on the diagonals of one box, order %v)", fw.Fs(segs[k][0][:]), fw.Fs(segs[k][1][:]), fw.Fs(pc), int(got[i]), want, i+1, pm)
+				return
+			}
+		}
 	}
 }
 
@@ -465,6 +513,37 @@ func abs64(v int64) int64 {
 }
 
 // (iv) random well-separated triples
+// c10Float32: ordinates that are float32 values (data that went through a
+// single-precision format), two points close together and the third about 2^k
+// segment lengths along their line, rounded to float32 again: the differences and
+// products round in float64 although every input has 29 trailing zero bits.
+func c10Float32(c *fw.Ctx, idx int) {
+	r := c.R
+	f32 := func(v float64) float64 { return float64(float32(v)) }
+	scale := math.Ldexp(1, r.Range(-20, 20))
+	a := [2]float64{f32(scale * (1 + 99*r.Float01())), f32(scale * (1 + 99*r.Float01()))}
+	b := [2]float64{f32(a[0] + scale*(1+99*r.Float01())), f32(a[1] + scale*(1+99*r.Float01()))}
+	if r.Bool() {
+		a[0], b[0] = -a[0], -b[0]
+	}
+	t := math.Ldexp(1+r.Float01(), r.Range(8, 48))
+	if r.Chance(1, 3) {
+		t = -t
+	}
+	p := [2]float64{f32(a[0] + t*(b[0]-a[0])), f32(a[1] + t*(b[1]-a[1]))}
+	if r.Chance(1, 3) {
+		// one float32 ulp off
+		p[r.Intn(2)] = float64(math.Nextafter32(float32(p[0]), float32(math.Inf(1-2*r.Intn(2)))))
+	}
+	for _, v := range []float64{p[0], p[1]} {
+		if math.IsInf(v, 0) || v != v {
+			return
+		}
+	}
+	c.Count("float32_valued_triples")
+	c10Check(c, [3][2]float64{a, b, p}, "float32-spread")
+}
+
 func c10Random(c *fw.Ctx, idx int) {
 	r := c.R
 	cl := []gen.FloatClass{gen.SmallInt, gen.Grid, gen.Moderate, gen.LonLat}[r.Intn(4)]
@@ -489,6 +568,7 @@ func init() {
 			{Name: "wide-span", Quick: 40000, Thorough: 8000000, Run: c10Wide},
 			{Name: "lattice26", Quick: 40000, Thorough: 8000000, Run: c10Lattice26},
 			{Name: "bigint", Quick: 40000, Thorough: 8000000, Run: c10Big},
+			{Name: "float32-spread", Quick: 60000, Thorough: 4000000, Run: c10Float32},
 			{Name: "random", Quick: 50000, Thorough: 2000000, Run: c10Random},
 		},
 		Require: []string{"hard_triples", "exact_collinear", "exact_ccw", "exact_cw", "near_collinear_bases", "bigint_det_1", "bigint_det_-1", "bigint_det_0", "extra_ordinates"},
